@@ -1762,9 +1762,9 @@ class SessionCache(object):
         database = cache.database
         provider = database.provider
         connection, is_new_connection = provider.connect()
-        if is_new_connection:
-            database.call_on_connect(connection)
         try:
+            if is_new_connection:
+                database.call_on_connect(connection)
             provider.set_transaction_mode(connection, cache)  # can set cache.in_transaction
         except:
             provider.drop(connection, cache)
